@@ -582,6 +582,31 @@ def main(chk: Check):
     def report(what, inp, cls=None):
         prop_fail.append((what, inp, cls))
 
+    def guarded(inp, fn):
+        """run one oracle; an implementation result the oracle cannot interpret is itself a
+        property failure on that input (never an exception of the check)."""
+        try:
+            fn()
+        except Exception as e:  # noqa: BLE001
+            report(f"the implementation's result has an unexpected shape for the oracle ({type(e).__name__}: {e})", inp)
+
+    def replaced_entirely(out, prefix, data):
+        """None when `out` is exactly prefix ++ <the segment the implementation writes for data into an
+        empty file> (so nothing of an older segment survives and the length is right), else a description."""
+        fr = fresh(data)
+        if isinstance(fr, Err) or not isinstance(fr, bytes):
+            return f"write_xpak onto an empty file raised {getattr(fr, 'kind', fr)!r}"
+        if not isinstance(out, bytes):
+            return f"no file content after the write ({out!r})"
+        if len(out) != len(prefix) + len(fr):
+            return (f"file length {len(out)} after the write, expected {len(prefix)} (bytes before the segment) + "
+                    f"{len(fr)} (new segment): the old segment was not replaced entirely")
+        if out[:len(prefix)] != prefix:
+            return "bytes before the segment changed"
+        if out[len(prefix):] != fr:
+            return "the bytes after the prefix are not the new segment"
+        return None
+
     # ------------------------------------------------------------------ corpus
     corpus = []
     cdir = os.path.join(os.path.dirname(os.path.dirname(os.path.abspath(__file__))), "corpus", "C26")
@@ -616,30 +641,43 @@ def main(chk: Check):
         if kind != "domain":
             chk.nontrivial(("rt-odd", kind, repr(res)[:40]))
         # (B) direct oracle on the implementation
-        if dom:
+        inp = {"stream": "roundtrip", "pre": pre.hex(), "data": data_json(data), "got": res}
+
+        def rt_oracle(pre=pre, data=data, w=w, res=res, p=p, inp=inp):
             bad = None
             if isinstance(w, Err):
                 bad = f"write_xpak raised {w.kind}"
-            elif w[:len(pre)] != pre:
-                bad = "bytes before the segment changed"
-            elif isinstance(res, Err):
-                bad = f"reading back raised {res.kind}"
-            elif res[0] != len(pre):
-                bad = f"segment starts at {res[0]}, not at the end of the old file ({len(pre)})"
-            elif res[1] != expected_items(data):
-                bad = "items() differ from the mapping written"
+            else:
+                bad = replaced_entirely(w, pre, data)
+            if bad is None:
+                if isinstance(res, Err):
+                    bad = f"reading back raised {res.kind}"
+                elif res[0] != len(pre):
+                    bad = f"segment starts at {res[0]}, not at the end of the old file ({len(pre)})"
+                elif res[1] != expected_items(data):
+                    bad = "items() differ from the mapping written"
+            if bad is None:
+                # second rewrite of the same path with the same mapping: the first segment must be
+                # replaced, i.e. the file must not change at all
+                w2 = drv.write(p, data)
+                if isinstance(w2, Err):
+                    bad = f"the second write_xpak on the same path raised {w2.kind}"
+                elif w2 != w:
+                    bad = ("rewriting the same mapping changed the file: " +
+                           (replaced_entirely(w2, pre, data) or "contents differ"))
             if bad:
-                inp = {"stream": "roundtrip", "pre": pre.hex(), "data": data_json(data), "got": res}
                 if kf_repo_alias(data):
                     # search around the input: the same mapping without the key must round-trip exactly
                     rest = [x for x in data if (x[0] if isinstance(x[0], str) else x[0].decode("latin1")) != "repo"]
                     bad2 = oracle_roundtrip(drv, pre, rest)
-                    if bad2 is None:
+                    if bad2 is None and "rewriting" not in bad and "length" not in bad:
                         report("key 'repo' is read back as 'REPO': " + bad, inp, "repo-alias")
                     else:
-                        report(bad2, {"stream": "roundtrip", "pre": pre.hex(), "data": data_json(rest)})
+                        report(bad2 or bad, {"stream": "roundtrip", "pre": pre.hex(), "data": data_json(rest)})
                 else:
                     report(bad, inp)
+        if dom:
+            guarded(inp, rt_oracle)
     chk.count("roundtrip", len(rt_cases))
     for s in rt_cases[:: max(1, len(rt_cases) // 2)][:2]:
         chk.sample({"stream": "roundtrip", "input": s[0][:600], "impl": s[1]})
@@ -686,38 +724,56 @@ def main(chk: Check):
             chk.nontrivial(("wr", kind, repr(f)[:80], repr(data)[:80]))
         inp = {"stream": "write", "file": None if f is None else f.hex(), "data": data_json(data), "kind": kind,
                "got": out}
-        if isinstance(out, Err):
-            if after != f:
-                report(f"write_xpak raised {out.kind} and left the file modified", inp)
-            elif f is not None and in_domain(data):
-                if kf_index_walk_crash(f):
-                    report(f"write_xpak raised {out.kind} on a file whose tail only mimics a segment", inp, "index-walk-crash")
-                else:
-                    report(f"write_xpak raised {out.kind} on an existing file and an in-domain mapping", inp)
-        elif in_domain(data):
+
+        def wr_oracle(f=f, data=data, kind=kind, seg_at=seg_at, out=out, after=after, inp=inp):
+            old = b"" if f is None else f
+            if isinstance(out, Err):
+                if after != f:
+                    report(f"write_xpak raised {out.kind} and left the file modified", inp)
+                elif f is not None and in_domain(data):
+                    if kf_index_walk_crash(f):
+                        report(f"write_xpak raised {out.kind} on a file whose tail only mimics a segment", inp, "index-walk-crash")
+                    else:
+                        report(f"write_xpak raised {out.kind} on an existing file and an in-domain mapping", inp)
+                return
+            if not in_domain(data):
+                return
             fr = fresh(data)
             if isinstance(fr, Err):
                 report(f"write_xpak onto an empty file raised {fr.kind}", inp)
+                return
+            n = len(out) - len(fr)
+            if n < 0 or out[n:] != fr or n > len(old) or out[:n] != old[:n]:
+                report("the file after write_xpak is not <prefix of the old file> + <the segment>", inp)
+            elif seg_at is not None and n != seg_at:
+                report(f"old segment started at {seg_at} but the new one was written at {n}: file length {len(out)}, "
+                       f"expected {seg_at + len(fr)} (the old segment was not replaced entirely)", inp)
+            elif seg_at is None and n != len(old) and ref_parse_kind(old) in ("oserror", "malformed"):
+                report("file without a segment: the segment was not appended at the end "
+                       f"({len(old) - n} bytes of the archive were cut off)", inp)
             else:
-                n = len(out) - len(fr)
-                if n < 0 or out[n:] != fr or n > len(f) or out[:n] != f[:n]:
-                    report("the file after write_xpak is not <prefix of the old file> + <the segment>", inp)
-                elif seg_at is not None and n != seg_at:
-                    report(f"old segment started at {seg_at} but the new one was written at {n}", inp)
-                elif seg_at is None and n != len(f) and ref_parse_kind(f) in ("oserror", "malformed"):
-                    report("file without a segment: the segment was not appended at the end "
-                           f"({len(f) - n} bytes of the archive were cut off)", inp)
+                # a second rewrite must replace the segment just written: same start, exact length
+                data2 = [] if data else [("CATEGORY", "sys-apps")]
+                out2 = drv.write(p, data2)
+                bad = (f"the second write_xpak on the same path raised {out2.kind}" if isinstance(out2, Err)
+                       else replaced_entirely(out2, old[:n], data2))
+                if bad:
+                    report("second rewrite: " + bad, dict(inp, second_data=data_json(data2),
+                                                          got_second=out2))
+        guarded(inp, wr_oracle)
     chk.count("write", len(wr_cases))
     for s in wr_cases[:: max(1, len(wr_cases) // 2)][:2]:
         chk.sample({"stream": "write", "input": s[0][:600], "impl": s[1]})
 
     # ------------------------------------------------------------------ seq (repeated rewrites)
     sq_cases, sq_crashed = [], []
-    sq_inputs = [(bytes.fromhex(c["pre"]), c.get("had_segment", False), [data_from_json(d) for d in c["datas"]])
+    sq_inputs = [(bytes.fromhex(c["pre"]), c.get("had_segment", False), [data_from_json(d) for d in c["datas"]],
+                  c.get("absent", False))
                  for c in corpus if c.get("stream") == "seq"]
     for _ in range(chk.n(16, 800)):
-        pre = gen_prefix(rng, scale)
-        had = rng.random() < 0.4
+        absent = rng.random() < 0.12
+        pre = b"" if absent else gen_prefix(rng, scale)
+        had = (not absent) and rng.random() < 0.4
         steps = []
         for i in range(rng.randrange(3, 7)):
             sc = rng.choice([1, 1, 2, 4]) * scale
@@ -726,47 +782,56 @@ def main(chk: Check):
                 steps.append(gen_data(rng, n if n is None or n <= 6 else 6, scale=sc))
             else:
                 steps.append(gen_odd_data(rng)[0])
-        sq_inputs.append((pre, had, steps))
-    for pre, had, steps in sq_inputs:
-        f0 = pre + ref_segment(enc_kvs(gen_data(rng))) if had else pre
+        sq_inputs.append((pre, had, steps, absent))
+    for pre, had, steps, absent in sq_inputs:
+        f0 = None if absent else (pre + ref_segment(enc_kvs(gen_data(rng))) if had else pre)
         p = drv.path(f0)
-        outs, lens, crashed = [], [], False
+        outs, lens, state = [], [], {"crashed": False}
         for d in steps:
             before = drv.raw(p)
             o = drv.write(p, d)
+            if o is None:
+                o = Err("file-vanished")
             outs.append(o)
-            inp = {"stream": "seq", "pre": pre.hex(), "had_segment": had, "datas": [data_json(x) for x in steps],
-                   "step": len(outs) - 1, "got": o}
-            if isinstance(o, Err):
-                if drv.raw(p) != before:
-                    report(f"write_xpak raised {o.kind} and left the file modified", inp)
-                elif in_domain(d):
-                    if kf_index_walk_crash(before):
-                        crashed = True
-                        report(f"rewrite raised {o.kind}: the file's own segment (written earlier with a non-ASCII key) "
-                               "cannot be walked", inp, "index-walk-crash")
-                    else:
-                        report(f"rewrite raised {o.kind}", inp)
-                continue
-            lens.append(len(o))
-            if not in_domain(d):
-                continue
-            fr = fresh(d)
-            if isinstance(fr, Err) or o != pre + fr:
-                report("after a rewrite the file is not <bytes before the first segment> + <new segment>", inp)
-            else:
+            inp = {"stream": "seq", "pre": pre.hex(), "had_segment": had, "absent": absent,
+                   "datas": [data_json(x) for x in steps], "step": len(outs) - 1, "got": o}
+
+            def sq_oracle(d=d, o=o, before=before, inp=inp):
+                if isinstance(o, Err):
+                    if drv.raw(p) != before:
+                        report(f"write_xpak raised {o.kind} and left the file modified", inp)
+                    elif before is None:
+                        pass        # the path does not exist: refusing is not a matter of this property
+                    elif in_domain(d):
+                        if kf_index_walk_crash(before):
+                            state["crashed"] = True
+                            report(f"rewrite raised {o.kind}: the file's own segment (written earlier with a non-ASCII "
+                                   "key) cannot be walked", inp, "index-walk-crash")
+                        else:
+                            report(f"rewrite raised {o.kind}", inp)
+                    return
+                lens.append(len(o))
+                if not in_domain(d):
+                    return
+                bad = replaced_entirely(o, pre, d)      # first AND every repeated rewrite: bytes and length
+                if bad:
+                    report(f"rewrite {len(outs)} of the same path: " + bad, inp)
+                    return
                 r = drv.start_items(p)
                 if isinstance(r, Err) or r != [len(pre), expected_items(d)]:
                     if kf_repo_alias(d):
                         report("key 'repo' is read back as 'REPO'", inp, "repo-alias")
                     else:
                         report("reading back after a rewrite differs from the mapping written", inp)
+            guarded(inp, sq_oracle)
         sq_cases.append((cpair(c_file(f0), clist([c_data(d) for d in steps], "list (pystr * pystr)")), outs))
-        sq_crashed.append(crashed)
+        sq_crashed.append(state["crashed"])
         ups = any(b > a for a, b in zip(lens, lens[1:]))
         downs = any(b < a for a, b in zip(lens, lens[1:]))
         if ups and downs:
             chk.nontrivial(("sq", pre, repr(steps)[:200]))
+        if absent:
+            chk.nontrivial(("sq-absent", repr(outs)[:60]))
     chk.count("seq", len(sq_cases))
     if sq_cases:
         chk.sample({"stream": "seq", "input": sq_cases[0][0][:600], "impl": [o if isinstance(o, Err) else len(o) for o in sq_cases[0][1]]})
@@ -827,7 +892,13 @@ def main(chk: Check):
     shard = chk.n(70, 250)
     futs = [(st, pool.submit(chk.coq_eval, st[0], IMPORTS, st[1], st[2], st[3], shard)) for st in streams] if ok else []
     for (name, ty, cases, evals), fut in futs:
-        r = fut.result()
+        try:
+            r = fut.result()
+        except Exception as e:  # noqa: BLE001 - e.g. a result value that cannot be rendered as a Coq term
+            chk.violation("correspondence",
+                          {"what": f"stream '{name}': the implementation's results could not be handed to Coq "
+                                   f"({type(e).__name__}: {e})"}, no_input=not prop_fail)
+            continue
         if r is None:
             continue
         for i in r[0]:
@@ -853,12 +924,14 @@ def main(chk: Check):
                        {"stream": name, "input": inp[:4000], "got": res})
 
     # ------------------------------------------------------------------ report
-    seen_inputs = 0
+    seen_inputs, per_stream = 0, {}
     for what, inp, cls in prop_fail:
         if cls is not None and chk.known_finding(cls, inp):
             continue
         seen_inputs += 1
-        if seen_inputs <= 5:
+        st = inp.get("stream") if isinstance(inp, dict) else None
+        per_stream[st] = per_stream.get(st, 0) + 1
+        if per_stream[st] <= 2 and sum(min(v, 2) for v in per_stream.values()) <= 8:   # a few per stream
             chk.violation("property", {"what": what, "input": inp})
     for name, case in corr_bad[:4]:
         chk.violation("correspondence",
@@ -883,7 +956,7 @@ def replay(chk: Check, data):
             out = drv.write(p, data_from_json(inp["data"]))
             print("implementation:", out if isinstance(out, Err) else out.hex())
         elif inp.get("stream") == "seq":
-            p = drv.path(bytes.fromhex(inp["pre"]))
+            p = drv.path(None if inp.get("absent") else bytes.fromhex(inp["pre"]))
             for d in inp["datas"]:
                 out = drv.write(p, data_from_json(d))
                 print("implementation:", out if isinstance(out, Err) else out.hex())
